@@ -126,6 +126,20 @@ func judge(t fataler, h *history, sel *crashSel, o *outcome, mode string) {
 	if len(h.Plan) > 0 {
 		cls = append(cls, "has:outage-pattern")
 	}
+	// a Start was rejected or lost (the shape the generator draws less often while KF-C08-4/5 are listed)
+	startFailed := false
+	for _, e := range o.log {
+		startFailed = startFailed || (e.Type == tStart && !e.Accepted)
+	}
+	for _, sr := range o.sends {
+		startFailed = startFailed || (sr.Site == "start" && sr.Lost)
+	}
+	if startFailed {
+		cls = append(cls, "has:start-failed")
+	}
+	for _, v := range vs {
+		cls = append(cls, "sig:"+v.sig) // share of runs per signature (listed ones included)
+	}
 	// observed, not asserted (the statement orders Stop against Start only): an Interim-Update accepted after
 	// the session's Stop — a queued interim retried late, or one still travelling when the Stop was sent
 	stopAt, obsSeen := map[string]int{}, map[string]bool{}
